@@ -442,7 +442,7 @@ fn pow(b: u64, e: usize) -> u64 {
 pub fn run(prop: P, ctx: &RunCtx) {
     let name = prop.id();
     match prop {
-        P::C01 => ctx.set_rule("inputs: exhaustive token sequences over alphabet A (121 spellings: every non-trivia token kind + 26 joint composite operators) up to the stated length, exhaustive short strings over four 14-character alphabets, random token soup (<=64 tokens), random G-chars text, quoted literals built from valid/malformed/truncated escape sequences and multi-byte characters, mutated repository snippets, long repetitions (linear-work bound), deep-nesting probes. non-trivial = >=1 non-trivia token and (>=1 syntax diagnostic or >=2 nodes below the root); distinct by non-trivia token-kind sequence"),
+        P::C01 => ctx.set_rule("inputs: exhaustive token sequences over alphabet A (121 spellings: every non-trivia token kind + 26 joint composite operators) up to the stated length, exhaustive short strings over four 14-character alphabets, random token soup (<=64 tokens), random G-chars text, quoted literals built from valid/malformed/truncated escape sequences and multi-byte characters, mutated repository snippets and their single-token corruption sweep (every token replaced by an error character / stray closer / keyword / …, deleted, duplicated), long repetitions (linear-work bound), deep-nesting probes. non-trivial = >=1 non-trivia token and (>=1 syntax diagnostic or >=2 nodes below the root); distinct by non-trivia token-kind sequence"),
         P::C02 => ctx.set_rule("same inputs as C01; non-trivial = (>=1 trivia token and >=2 non-trivia tokens) or >=1 syntax error or >=1 glued composite operator; distinct by input hash"),
         P::C12 => ctx.set_rule("syntax side: same inputs as C01; semantic side: generated programs with injected semantic faults and non-ASCII identifiers; non-trivial = >=1 diagnostic; distinct by input hash"),
         P::C14 => ctx.set_rule("inputs: all strings of length <= L over four 14-character alphabets of lexically critical characters (exhaustive), random G-chars text, token soup, mutated snippets; non-trivial = contains a multi-byte char, NUL, quote, #, $, @, / or digit followed by a letter; distinct by input"),
@@ -566,6 +566,40 @@ pub fn run(prop: P, ctx: &RunCtx) {
             }
             let rep = text_case(prop, s, "snippet-whole", u < 2);
             ctx.eval_local(name, st, rep);
+        });
+        // single-token corruption sweep: every (coarse) token of every snippet is replaced by an
+        // error character, a stray closer, a keyword, a number, or deleted / duplicated
+        // (deterministic; the quick tier takes every third token)
+        ctx.par_units(snippets.len(), |u, st| {
+            let s = &snippets[u];
+            let toks = coarse_tokens(s);
+            let step = ctx.pick(3usize, 1usize);
+            const JUNK: &[&str] = &["№", "}", ")", "mutable", "0x", "\"", "@", "$", "/*", "else", "->"];
+            for i in (0..toks.len()).step_by(step) {
+                if toks[i].trim().is_empty() {
+                    continue;
+                }
+                heartbeat_tick();
+                for (k, j) in JUNK.iter().enumerate() {
+                    // the quick tier rotates through the junk list instead of trying all of it
+                    if step > 1 && (i / step + k) % 4 != 0 && k != 0 {
+                        continue;
+                    }
+                    let mut v: Vec<&str> = toks.clone();
+                    v[i] = j;
+                    let rep = text_case(prop, &v.concat(), "token-corruption", false);
+                    ctx.eval_local(name, st, rep);
+                }
+                let mut v: Vec<&str> = toks.clone();
+                v.remove(i);
+                let rep = text_case(prop, &v.concat(), "token-deletion", false);
+                ctx.eval_local(name, st, rep);
+                let mut v: Vec<&str> = toks.clone();
+                v.insert(i, toks[i]);
+                v.insert(i + 1, " ");
+                let rep = text_case(prop, &v.concat(), "token-duplication", false);
+                ctx.eval_local(name, st, rep);
+            }
         });
     }
 
